@@ -244,6 +244,22 @@ ProdModel(f, g, pat0, use0, k0) ==
        [] use0 = "objmin" -> Model(pat0, <<LinCon(1, "inf", << <<0, 1>>, <<1, 1>> >>)>>, <<>>, <<Obj(FALSE, E)>>)
        [] use0 = "objmax" -> Model(pat0, <<LinCon("-inf", 3, << <<0, 1>>, <<2, 1>> >>)>>, <<>>, <<Obj(TRUE, E)>>)
 
+\* monotone functions a^F of a functional expression F: 2^F is increasing, (1/2)^F decreasing, so the half of F's
+\* definition the reformulation has to keep differs.  Values are on the integer grid where F >= 0 resp. F <= 0
+\* (other points are not evaluated).  Operator 1078 is the abstract "(1/2)^a" (written as o78 with base 0.5).
+MonoOps == {"exp2", "exph", "exphn"}
+MonoInner == {"var", "max2", "min2", "abs", "if", "count", "min3", "maxabs", "absdiff"}
+MonoExpr(f, g) ==
+  LET F == IF g = "var" THEN V(0) ELSE NumExpr(g, "vars")
+  IN CASE f = "exp2" -> O2(78, N(2), F) [] f = "exph" -> O1(1078, F) [] f = "exphn" -> O1(1078, O1(16, F))
+MonoModel(f, g, pat0, use0, k0) ==
+  LET E == MonoExpr(f, g)
+  IN CASE use0 = "con_le" -> Model(pat0, <<Con("-inf", k0, E)>>, <<>>, <<SumObj>>)
+       [] use0 = "con_ge" -> Model(pat0, <<Con(k0, "inf", E)>>, <<>>, <<SumObj>>)
+       [] use0 = "con_eq" -> Model(pat0, <<Con(k0, k0, E)>>, <<>>, <<>>)
+       [] use0 = "objmin" -> Model(pat0, <<LinCon(0, "inf", << <<0, 1>>, <<1, 1>> >>)>>, <<>>, <<Obj(FALSE, E)>>)
+       [] use0 = "objmax" -> Model(pat0, <<LinCon("-inf", 2, << <<0, 1>>, <<2, 1>> >>)>>, <<>>, <<Obj(TRUE, E)>>)
+
 VARIABLES kind, op, sh, pat, use, k
 vars == <<kind, op, sh, pat, use, k>>
 
@@ -258,6 +274,7 @@ Init ==
      \/ (kind = "cmp" /\ op \in CmpOps /\ sh \in {"vars", "affine", "mixed"} /\ use \in {"iff", "or", "impl"} /\ k \in -5..5)
      \/ (kind = "cone" /\ op \in ConeOps /\ sh = "vars" /\ use \in {"con", "con2"} /\ k \in {0, 1})
      \/ (kind = "prod" /\ op \in ProdInner /\ sh \in ProdOther /\ use \in {"con_le", "con_ge", "con_eq", "objmin", "objmax"} /\ k \in {-2, -1, 1, 2})
+     \/ (kind = "mono" /\ op \in MonoOps /\ sh \in MonoInner /\ use \in {"con_le", "con_ge", "con_eq", "objmin", "objmax"} /\ k \in {1, 2, 4})
      \/ (kind = "nest" /\ op \in NestOuter /\ sh \in NestInner /\ use \in {"con_le", "con_ge", "objmin", "lcon_lt", "shared", "inor"} /\ k \in {0, 1})
 Next == UNCHANGED vars
 
@@ -279,5 +296,6 @@ TheModel == CASE kind = "num" -> NumModel(op, sh, pat, use, k)
               [] kind = "cone" -> ConeModel(op, pat, use, k)
               [] kind = "cmp" -> CmpModel(op, sh, pat, use, k)
               [] kind = "prod" -> ProdModel(op, sh, pat, use, k)
+              [] kind = "mono" -> MonoModel(op, sh, pat, use, k)
 Emit == PrintT(<<"CASE", ToJson([kind |-> kind, op |-> op, sh |-> sh, pat |-> pat, use |-> use, k |-> k, m |-> TheModel])>>)
 =============================================================================
